@@ -41,7 +41,7 @@ def _one(args):
         env = dict(os.environ, SA_REPO=tmp, SA_EVIDENCE_DIR=os.path.join(tmp, "evidence"))
         env.pop("VERIF_TIER", None)
         r = subprocess.run([sys.executable, "-m", "sa", "check", prop, "--tier", "quick"], cwd=VERIF, env=env,
-                           capture_output=True, text=True)
+                           capture_output=True, text=True, errors="backslashreplace")
         lines = [l for l in r.stdout.splitlines() if l.startswith("  ") or l.startswith("ANALYSIS-ERROR")]
         detail = (lines[0].strip()[:200] if lines else "").replace(tmp, "<copy>")
         return (os.path.basename(patch), {0: "silent", 1: "fired", 2: "analysis-error"}.get(r.returncode, f"rc={r.returncode}"), detail)
